@@ -129,12 +129,36 @@ func EnableShortReads() {
 	}
 }
 
+// EnableFaults makes "the connection is reset right before this operation" an ENV choice at every
+// Read and Write of connection ends whose Label starts with prefix.
+func EnableFaults(prefix string) {
+	if e := sched.E; e != nil {
+		e.Data["faultPrefix"] = prefix
+	}
+}
+
+func (c *VConn) maybeFault(op string) {
+	e := sched.E
+	if e == nil {
+		return
+	}
+	p, _ := e.Data["faultPrefix"].(string)
+	if p == "" || len(c.Label) < len(p) || c.Label[:len(p)] != p || c.closed || c.in.reset {
+		return
+	}
+	if sched.Choose(sched.ClsEnv, 2, "reset-before-"+op) == 1 {
+		c.in.reset, c.out.reset = true, true
+		c.in.buf, c.out.buf = nil, nil
+	}
+}
+
 func (c *VConn) readReady() bool {
 	return c.closed || c.in.reset || len(c.in.buf) > 0 || c.in.wclosed || c.in.rclosed || c.rdExp
 }
 
 func (c *VConn) Read(b []byte) (int, error) {
 	sched.Wait("net-read", c, c.readReady)
+	c.maybeFault("read")
 	c.ReadN++
 	switch {
 	case c.closed:
@@ -169,6 +193,7 @@ func (c *VConn) Read(b []byte) (int, error) {
 
 func (c *VConn) Write(b []byte) (int, error) {
 	sched.Op("net-write", c)
+	c.maybeFault("write")
 	c.WriteN++
 	switch {
 	case c.closed:
